@@ -66,11 +66,25 @@ def exact_factor(dt, ratio, minp):
     return 1
 
 
+def regen_objlayer():
+    """re-translate AccSignal.gen_response_spectrum / generate_response_spectrum and the lazy getters s_a, s_v, s_d of
+    eqsig/single.py into coq/gen/Gen_c03_obj.v (fail closed): the C03_object_*_is_source theorems of Prop_C03 are then
+    re-proved against the code that is in the repo now"""
+    import sys, os
+    try:
+        sys.path.insert(0, os.path.join(core.VERIF, 'translator'))
+        import py2coq_objlayer
+        py2coq_objlayer.regenerate_c03(repo=core.REPO)
+    except Exception as e:  # fail closed
+        return 'py2coq_objlayer(C03): %s: %s' % (type(e).__name__, e)
+    return None
+
+
 def run(rep, rng, tier):
     import eqsig
     from eqsig import sdof
     # the pseudo-spectral lines and the 6 dt cut are re-extracted from the source text on every run (Gen_sdof_loop.v, shared with C01)
-    rep.prove('Prop_C03', gen_failed=c01.regen_loop())
+    rep.prove('Prop_C03', gen_failed='; '.join(m for m in (c01.regen_loop(), regen_objlayer()) if m) or None)
     rep.prove('Prop_C03_e2e')
     N = 1 if tier == 'quick' else 8
     cases = []
